@@ -9,6 +9,7 @@ import (
 	"os"
 	"sort"
 	"strconv"
+	"strings"
 	"sync"
 	"sync/atomic"
 
@@ -253,6 +254,30 @@ func c20Call(s *c20Shared, rng *gen.Rng, force int) (name string, obj int, out [
 	case 24:
 		spk := bitcoin.NewSchnorrPublicKeyFromECDSA(pub)
 		return "NewSchnorrPublicKeyFromECDSA", ki, spk.Bytes()
+	case 25:
+		// the caller composes its tags in a PRIVATE buffer that it reuses: three calls with tags of one
+		// length and different contents at one address, each against the reference model (a memo that
+		// remembers the caller's slice instead of its contents; other goroutines do the same with theirs)
+		base := s.dsts[rng.Intn(len(s.dsts))]
+		buf := make([]byte, len(base), len(base)+8)
+		msg := s.digests[rng.Intn(len(s.digests))]
+		var out []byte
+		for j := 0; j < 3; j++ {
+			copy(buf, base)
+			buf[len(buf)-1] ^= byte(j * 7)
+			buf[0] ^= byte(j)
+			p, err := h2c.Secp256k1_XMD_SHA256_SSWU_RO(buf, msg)
+			m, _, merr := oracle.HashToCurveRO(msg, buf)
+			switch {
+			case err != nil || merr != nil:
+				out = append(out, []byte(fmt.Sprint(err, merr))...)
+			case !bytes.Equal(p.CompressedBytes(), oracle.EncodeCompressed(m)):
+				out = append(out, []byte(fmt.Sprintf("call %d with the %d-byte tag %x.. in a reused private buffer: %x, reference model %x;", j, len(buf), buf[:4], p.CompressedBytes(), oracle.EncodeCompressed(m)))...)
+			default:
+				out = append(out, 1)
+			}
+		}
+		return "h2c RO (tags composed in a reused private buffer; 010101 = all three equal the reference model)", 400, out
 	case 26:
 		dst := s.dsts[rng.Intn(len(s.dsts))]
 		p, err := h2c.Secp256k1_XMD_SHA256_SSWU_RO(dst, s.digests[rng.Intn(len(s.digests))])
@@ -429,55 +454,7 @@ func runC20(r *mon.Run) {
 		nFresh := 0
 		for round := 0; round < rounds; round++ {
 			rng := gen.New(r.Seed, round, "C20", "fresh", strconv.Itoa(batch))
-			build := func() []func() []byte {
-				dv, _ := keyValue(gen.New(r.Seed, round, "C20", "fresh-key", strconv.Itoa(batch)))
-				priv := mustPriv(dv)
-				pub, _ := secec.NewPublicKey(oracle.EncodeUncompressed(oracle.MulG(dv)))
-				spriv := bitcoin.NewSchnorrPrivateKeyFromECDSA(priv)
-				spub, _ := bitcoin.NewSchnorrPublicKey(b32(oracle.MulG(dv).X))
-				pt := pointRep(oracle.MulG(new(big.Int).Add(dv, big.NewInt(1))), big.NewInt(int64(3+round)))
-				if pt == nil {
-					pt = secp256k1.NewGeneratorPoint()
-				}
-				sc := scalarFromBig(dv)
-				dig := bytes.Repeat([]byte{byte(round)}, 32)
-				freshOpts := &secec.ECDSAOptions{} // Hash unspecified: shared by all goroutines of this round
-				return []func() []byte{
-					func() []byte { return pub.CompressedBytes() },
-					func() []byte { return pub.Bytes() },
-					func() []byte { return pub.ASN1Bytes() },
-					func() []byte { return pub.Point().CompressedBytes() },
-					func() []byte { return priv.PublicKey().CompressedBytes() },
-					func() []byte { return priv.Bytes() },
-					func() []byte { return priv.Scalar().Bytes() },
-					func() []byte { return spriv.PublicKey().Bytes() },
-					func() []byte { return spriv.Bytes() },
-					func() []byte { return spub.Bytes() },
-					func() []byte { return spub.Point().CompressedBytes() },
-					func() []byte { return bitcoin.NewSchnorrPublicKeyFromECDSA(pub).Bytes() },
-					func() []byte { return pt.CompressedBytes() },
-					func() []byte { return pt.UncompressedBytes() },
-					func() []byte { b, _ := pt.XBytes(); return b },
-					func() []byte { return []byte{byte(pt.IsYOdd()), byte(pt.IsIdentity())} },
-					func() []byte { return sc.Bytes() },
-					func() []byte { return []byte{byte(sc.IsGreaterThanHalfN()), byte(sc.IsZero())} },
-					func() []byte { sh, _ := priv.ECDH(pub); return sh },
-					func() []byte { sig, _ := priv.Sign(secec.RFC6979SHA256(), dig, nil); return sig },
-					func() []byte { sig, _ := spriv.Sign(&fixedReader{data: dig}, dig, nil); return sig },
-					func() []byte { return new(Point).ScalarMult(sc, pt).CompressedBytes() },
-					func() []byte {
-						return []byte{byte(boolU64(pub.Equal(priv.PublicKey()))), byte(boolU64(spub.Equal(spriv.PublicKey())))}
-					},
-					func() []byte {
-						r0, s0, _, _, _ := oracle.RFC6979Sign(dv, dig)
-						return []byte{byte(boolU64(pub.Verify(dig, oracle.DERWriteSig(r0, s0), freshOpts))), byte(freshOpts.Hash)}
-					},
-					func() []byte {
-						r0, s0, _, _, _ := oracle.RFC6979Sign(dv, dig)
-						return []byte{byte(boolU64(bitcoin.VerifyASN1(pub, dig, append(oracle.DERWriteSig(r0, s0), 1))))}
-					},
-				}
-			}
+			build := func() []func() []byte { return freshAccessors(r.Seed, round, batch) }
 			acc := build()
 			ref := build() // an identical, separately built object set for the sequential reference
 			_ = rng
@@ -498,13 +475,28 @@ func runC20(r *mon.Run) {
 			}
 			close(gate1b)
 			wg.Wait()
+			wants := make([][]byte, len(ref))
 			for k := range ref {
 				want := ref[k]()
+				wants[k] = want
 				for g := 0; g < G; g++ {
 					nFresh++
 					if !bytes.Equal(outs[g][k], want) {
 						w.Fail("c20/fresh-first-use:result", fmt.Sprintf("round %d, goroutine %d, accessor #%d on freshly built shared objects returned %x, the same call on an identical object set run alone returns %x", round, g, k, outs[g][k], want), "batch", batch)
 					}
+				}
+			}
+			// the callers own what the concurrent first calls returned: every goroutine overwrites its
+			// results (all goroutines are joined - no race of the harness' making), then the accessors
+			// are called once more
+			for g := 0; g < G; g++ {
+				for k := range outs[g] {
+					wreckBytes(outs[g][k])
+				}
+			}
+			for k := range acc {
+				if got := acc[k](); !bytes.Equal(got, wants[k]) {
+					w.Fail("c20/fresh-first-use:after-callers-overwrote-results", fmt.Sprintf("round %d, accessor #%d returns %x after the goroutines that made the concurrent FIRST calls overwrote the slices they were given; expected %x", round, k, got, wants[k]), "batch", batch)
 				}
 			}
 		}
@@ -575,6 +567,9 @@ func runC20(r *mon.Run) {
 				w.Case(true, []byte(name), []byte(fmt.Sprint(batch, g, j)))
 				if !bytes.Equal(out, recs[g][j].out) {
 					w.Fail("c20/result:"+name, fmt.Sprintf("%s (goroutine %d, call %d): the concurrent call returned %x, the same call run alone returns %x", name, g, j, recs[g][j].out, out), "batch", batch)
+				}
+				if strings.HasPrefix(name, "h2c RO (tags composed") && !bytes.Equal(recs[g][j].out, []byte{1, 1, 1}) {
+					w.Fail("c20/result:h2c-private-buffer", fmt.Sprintf("%s (goroutine %d, call %d): %s", name, g, j, recs[g][j].out), "batch", batch)
 				}
 			}
 		}
@@ -722,4 +717,56 @@ func runC20(r *mon.Run) {
 	// "package initialisation of the embedded tables is complete before any such call": every operation
 	// kind as the first library call of its own process
 	runColdStart(r, "c20", r.N(30, 450), "dsm", "sbm", "sm", "msm", "msmv", "pubkey", "verify", "btcverify", "recover", "schnorrverify", "ecdh", "sign", "schnorrsign", "h2c", "parsepub", "generate")
+}
+
+// freshAccessors builds one set of fresh key / point / scalar objects and returns every accessor and
+// deterministic operation on them (phase 1b of C20; the first-use monitor of C18).
+func freshAccessors(seed int64, round int, batch int) []func() []byte {
+	dv, _ := keyValue(gen.New(seed, round, "C20", "fresh-key", strconv.Itoa(batch)))
+	priv := mustPriv(dv)
+	pub, _ := secec.NewPublicKey(oracle.EncodeUncompressed(oracle.MulG(dv)))
+	spriv := bitcoin.NewSchnorrPrivateKeyFromECDSA(priv)
+	spub, _ := bitcoin.NewSchnorrPublicKey(b32(oracle.MulG(dv).X))
+	pt := pointRep(oracle.MulG(new(big.Int).Add(dv, big.NewInt(1))), big.NewInt(int64(3+round)))
+	if pt == nil {
+		pt = secp256k1.NewGeneratorPoint()
+	}
+	sc := scalarFromBig(dv)
+	dig := bytes.Repeat([]byte{byte(round)}, 32)
+	freshOpts := &secec.ECDSAOptions{} // Hash unspecified: shared by all goroutines of this round
+	return []func() []byte{
+		func() []byte { return pub.CompressedBytes() },
+		func() []byte { return pub.Bytes() },
+		func() []byte { return pub.ASN1Bytes() },
+		func() []byte { return pub.Point().CompressedBytes() },
+		func() []byte { return priv.PublicKey().CompressedBytes() },
+		func() []byte { return priv.Bytes() },
+		func() []byte { return priv.Scalar().Bytes() },
+		func() []byte { return spriv.PublicKey().Bytes() },
+		func() []byte { return spriv.Bytes() },
+		func() []byte { return spub.Bytes() },
+		func() []byte { return spub.Point().CompressedBytes() },
+		func() []byte { return bitcoin.NewSchnorrPublicKeyFromECDSA(pub).Bytes() },
+		func() []byte { return pt.CompressedBytes() },
+		func() []byte { return pt.UncompressedBytes() },
+		func() []byte { b, _ := pt.XBytes(); return b },
+		func() []byte { return []byte{byte(pt.IsYOdd()), byte(pt.IsIdentity())} },
+		func() []byte { return sc.Bytes() },
+		func() []byte { return []byte{byte(sc.IsGreaterThanHalfN()), byte(sc.IsZero())} },
+		func() []byte { sh, _ := priv.ECDH(pub); return sh },
+		func() []byte { sig, _ := priv.Sign(secec.RFC6979SHA256(), dig, nil); return sig },
+		func() []byte { sig, _ := spriv.Sign(&fixedReader{data: dig}, dig, nil); return sig },
+		func() []byte { return new(Point).ScalarMult(sc, pt).CompressedBytes() },
+		func() []byte {
+			return []byte{byte(boolU64(pub.Equal(priv.PublicKey()))), byte(boolU64(spub.Equal(spriv.PublicKey())))}
+		},
+		func() []byte {
+			r0, s0, _, _, _ := oracle.RFC6979Sign(dv, dig)
+			return []byte{byte(boolU64(pub.Verify(dig, oracle.DERWriteSig(r0, s0), freshOpts))), byte(freshOpts.Hash)}
+		},
+		func() []byte {
+			r0, s0, _, _, _ := oracle.RFC6979Sign(dv, dig)
+			return []byte{byte(boolU64(bitcoin.VerifyASN1(pub, dig, append(oracle.DERWriteSig(r0, s0), 1))))}
+		},
+	}
 }
